@@ -2,7 +2,7 @@
 import collections
 import json
 from harness import gen_conn, tlc
-from harness.runner import pmap
+from harness.runner import first_per_clause, pmap
 
 _FAMILY = None
 
@@ -64,7 +64,7 @@ def run(ctx, sds=None):
             out['nontrivial'] += 1
         seen.add(key)
         if v[2]:
-            out['fails'].append({'tid': t['tid'], 'fails': v[2][:20], 's': t['s']})
+            out['fails'].append({'tid': t['tid'], 'fails': first_per_clause(v[2]), 's': t['s']})
     for t in traces[:1] + traces[-1:]:
         out['samples'].append({'settings': t['s'], 'patterns': [{'cap': e['cap'], 'n_enumerated': len(e['agg']),
                                                                  'first': e['agg'][:2]} for e in t['ev'] if e['e'] == 'Pat'][:3]})
